@@ -685,8 +685,9 @@ def k_encode_rle_bp(timeout):
     width = cy.arg("width", "int32_t", p)
     wl = cy.arg("withlength", "int32_t", p)
     loc0, on, mem0 = cy.loc(p, "o"), cy.nbytes(p, "o"), p.mem["o"]
-    # requires: the run is K >= 1 bytes (at least the header), K < 2**31, and prefix + run fit the buffer
-    p.pc += [n >= 0, K >= 1, K < 2 ** 31, loc0 + z3.If(wl.iv != 0, 4, 0) + K <= on]
+    # requires: the run is K >= 1 bytes (at least the header), prefix + run fit the buffer, and the buffer is smaller than 2 GiB (page sizes
+    # are i32 in the format; NumpyIO.tell() returns int32, so cursors stay free of 32-bit wrap-around)
+    p.pc += [n >= 0, K >= 1, K < 2 ** 31, on < 2 ** 31, loc0 + z3.If(wl.iv != 0, 4, 0) + K <= on]
     mf = lambda m: {"withlength": mv(m, wl.iv), "run_bytes": mv(m, K), "o_loc": mv(m, loc0), "o_nbytes": mv(m, on)}
     if solve(list(p.pc) + [wl.iv != 0], 5000)[0] != REFUTED:
         res.addk(pre + ".precondition_satisfiable", "functional", UNKNOWN, None, 0.0, "z3", "not shown satisfiable")
@@ -969,6 +970,20 @@ def k_encode_dict(timeout):
             res.addk("encode_dict.block_is_spec", "functional", UNKNOWN, None, 0.0, "engine", "the result is not a byte string")
             continue
         hyps = list(q.pc) + inst(q, "frame", z3.IntVal(0))
+        # the pieces first, in linear arithmetic (a counter-model is found at once): one varint, right after the width byte, of the
+        # specification value; the byte written first is the width
+        calls = q.ghost.get("varint_calls", [])
+        if len(calls) == 1:
+            at, xi, Lc, _, _ = calls[0]
+            st, m, secs = solve(lia_part(q.pc) + [z3.Not(z3.And(at == 1, xi == hdr))], timeout)
+            res.addk("encode_dict.header_value_is_spec", "functional", st, dict(mf(m), header=mv(m, xi), spec_header=mv(m, hdr)) if m is not None else None,
+                     secs, "z3", "exactly one run header, written right after the width byte: (ceil(n/8) << 1) | 1")
+        else:
+            res.addk("encode_dict.header_value_is_spec", "functional", REFUTED, {"varint_calls": len(calls)}, 0.0, "engine",
+                     "exactly one run header is written")
+        st, m, secs = solve(hyps + [blk.seq.n >= 1, z3.Not(z3.BV2Int(blk.seq.at(z3.IntVal(0))) == width)], timeout)
+        res.addk("encode_dict.width_byte_is_itemsize_bits", "functional", st, dict(mf(m), first_byte=mv(m, blk.seq.at(z3.IntVal(0)))) if m is not None else None,
+                 secs, "z3", "the first byte of the page body is the bit width 8 * itemsize")
         st, m, secs = solve(hyps + [z3.Not(eq_goal(blk.seq, spec, k))], timeout)
         res.addk("encode_dict.block_is_spec", "functional", st,
                  dict(mf(m), block_len=mv(m, blk.seq.n), spec_len=mv(m, spec.n), differs_at=mv(m, k)) if m is not None else None, secs, "z3",
